@@ -1,5 +1,7 @@
 import TucanProofs.Lemmas.RoundTripPipeline
 import TucanProofs.Examples
+import TucanProofs.Lemmas.FilesMol
+import TucanProofs.Lemmas.MoreExamples
 /-!
 # C02 — different molecules never share a TUCAN string
 
@@ -58,5 +60,58 @@ theorem C02_complete_invariant (O : CanonOracle)
 example : exGraph.WF ∧ exGraph.Simple ∧ exGraph.MolAtoms ∧
     (natRepr (exGraph.numberOfNodes + 1)).length ≤ intMaxStrDigits :=
   ⟨exGraph_wf, exGraph_simple, exGraph_molAtoms, by decide⟩
+
+/-- **C02 for graphs of molecules a molfile can state.**  `g₁`, `g₂` are graphs of conformant molecules `m₁`, `m₂`
+(`IsGraphOf`: node `i` is the `i`-th listed atom, adjacency is the molecule's — what either reader returns for a
+file stating the molecule).  If they get the same string, there is a renaming of the atoms of `m₁` onto those of
+`m₂` that keeps element, isotope mass, radical and bonds. -/
+theorem C02_graphs_of_molecules (order₁ order₂ : Graph → List Nat)
+    (hperm₁ : ∀ r : Graph, r.WF → (order₁ r).Perm r.labels) (hperm₂ : ∀ r : Graph, r.WF → (order₂ r).Perm r.labels)
+    (m₁ m₂ : Mol) (c₁ c₂ : List (Str × Str × Str)) (hc₁ : c₁.length = m₁.atoms.length) (hc₂ : c₂.length = m₂.atoms.length)
+    (hm₁ : m₁.Conformant) (hm₂ : m₂.Conformant)
+    (hsize₁ : (natRepr (m₁.atoms.length + 1)).length ≤ intMaxStrDigits)
+    (hsize₂ : (natRepr (m₂.atoms.length + 1)).length ≤ intMaxStrDigits)
+    (g₁ g₂ : Graph) (hg₁ : IsGraphOf g₁ m₁ c₁) (hg₂ : IsGraphOf g₂ m₂ c₂)
+    (s : Str) (h₁ : tucanOf order₁ g₁ = .ok s) (h₂ : tucanOf order₂ g₂ = .ok s) :
+    ∃ π : Nat → Nat, Iso SameIdent π g₁ g₂ := by
+  have hn₁ : g₁.numberOfNodes = m₁.atoms.length := by
+    have := congrArg List.length hg₁.labels
+    simpa [Graph.labels, Graph.numberOfNodes] using this
+  have hn₂ : g₂.numberOfNodes = m₂.atoms.length := by
+    have := congrArg List.length hg₂.labels
+    simpa [Graph.labels, Graph.numberOfNodes] using this
+  exact C02_injective order₁ order₂ hperm₁ hperm₂ g₁ g₂ hg₁.wf hg₁.simple (isGraphOf_molAtoms g₁ m₁ c₁ hc₁ hm₁ hg₁)
+    hg₂.wf hg₂.simple (isGraphOf_molAtoms g₂ m₂ c₂ hc₂ hm₂ hg₂) (by rw [hn₁]; exact hsize₁) (by rw [hn₂]; exact hsize₂) s h₁ h₂
+
+/-- **C02 for files.**  Two molfile texts, each V3000 or V2000 with any header, line endings and spelling, that are
+read as conformant molecules `m₁`, `m₂` (`ReadsAs`) and get the same TUCAN string state isomorphic molecules: the
+graphs the reader returns are graphs of `m₁` and `m₂`, and some renaming between them keeps element, isotope mass,
+radical and bonds.  Contrapositive: files stating non-isomorphic molecules never share a string. -/
+theorem C02_files_same_string_isomorphic (order₁ order₂ : Graph → List Nat)
+    (hperm₁ : ∀ r : Graph, r.WF → (order₁ r).Perm r.labels) (hperm₂ : ∀ r : Graph, r.WF → (order₂ r).Perm r.labels)
+    (m₁ m₂ : Mol) (c₁ c₂ : List (Str × Str × Str)) (hc₁ : c₁.length = m₁.atoms.length) (hc₂ : c₂.length = m₂.atoms.length)
+    (hm₁ : m₁.Conformant) (hm₂ : m₂.Conformant)
+    (hsize₁ : (natRepr (m₁.atoms.length + 1)).length ≤ intMaxStrDigits)
+    (hsize₂ : (natRepr (m₂.atoms.length + 1)).length ≤ intMaxStrDigits)
+    (text₁ text₂ : Str) (r₁ : ReadsAs text₁ m₁ c₁) (r₂ : ReadsAs text₂ m₂ c₂)
+    (g₁ g₂ : Graph) (hr₁ : graphFromMolfileText text₁ = .ok g₁) (hr₂ : graphFromMolfileText text₂ = .ok g₂)
+    (s : Str) (h₁ : tucanOf order₁ g₁ = .ok s) (h₂ : tucanOf order₂ g₂ = .ok s) :
+    IsGraphOf g₁ m₁ c₁ ∧ IsGraphOf g₂ m₂ c₂ ∧ ∃ π : Nat → Nat, Iso SameIdent π g₁ g₂ := by
+  obtain ⟨g₁', e₁, hg₁⟩ := readsAs_graph_of m₁ hm₁.ok c₁ hc₁ text₁ r₁
+  obtain ⟨g₂', e₂, hg₂⟩ := readsAs_graph_of m₂ hm₂.ok c₂ hc₂ text₂ r₂
+  rw [hr₁] at e₁
+  rw [hr₂] at e₂
+  injection e₁ with e₁
+  injection e₂ with e₂
+  subst e₁ e₂
+  exact ⟨hg₁, hg₂, C02_graphs_of_molecules order₁ order₂ hperm₁ hperm₂ m₁ m₂ c₁ c₂ hc₁ hc₂ hm₁ hm₂ hsize₁ hsize₂
+    g₁ g₂ hg₁ hg₂ s h₁ h₂⟩
+
+/-- non-vacuity of the file-level statement: the V3000 text (CRLF) and the V2000 text (LF, no final newline) of
+`FilesExample` are read as its molecule, which is conformant -/
+example : FilesExample.mol.Conformant ∧
+    ReadsAs (fileText ['\r', '\n'] FilesExample.lines3) FilesExample.mol FilesExample.coords3 ∧
+    ReadsAs (fileTextNoTrail ['\n'] FilesExample.lines2) FilesExample.mol (v2Coords FilesExample.atoms2) :=
+  ⟨MoreExamples.mol_conformant, FilesExample.texts_read.1, FilesExample.texts_read.2⟩
 
 end Tucan
